@@ -230,7 +230,8 @@ func c05Kinds() []kindVal {
 		{"n:400digits.0", json.Number(strings.Repeat("9", 400) + ".0"), false}, {"n:309digits", json.Number("2" + strings.Repeat("0", 308)), false},
 		{"n:10", json.Number("10"), false}, {"n:1e308", json.Number("1e308"), false}, {"n:1e-320", json.Number("1e-320"), false}, {"n:-1.7e308", json.Number("-1.7e308"), false},
 		{"n:tiny400", json.Number("0." + strings.Repeat("0", 400) + "1"), false}, {"n:1E+400", json.Number("1E+400"), false}, {"n:-1.5e999", json.Number("-1.5e999"), false},
-		{"s:empty", "", false}, {"s:a", "a", false}, {"s:1", "1", false}, {"s:true", "true", false}, {"s:1e400", "1e400", false}, {"s:nan", "NaN", false},
+		{"s:empty", "", false}, {"s:a", "a", false}, {"s:1", "1", false}, {"s:true", "true", false}, {"s:1e400", "1e400", false}, {"s:nan", "NaN", false}, {"s:+inf", "+inf", false}, {"s:+Infinity", "+Infinity", false}, {"s:-Inf", "-Inf", false}, {"s:inf", "inf", false}, {"s:+nan", "+nan", false},
+		{"s:1e999", "1e999", false}, {"s:hexfloat", "0x1p1023", false}, {"s:-1e999", "-1e999", false}, {"s:infinity", "infinity", false},
 		{"arr:empty", []any{}, false}, {"arr:1a", []any{1.0, "a"}, false}, {"arr:nested", []any{[]any{1.0}, map[string]any{"a": nil}}, false},
 		{"obj:empty", map[string]any{}, false}, {"obj:a", map[string]any{"a": 1.0, "b": []any{2.0}}, false},
 		{"date", "2023-08-15", true}, {"time", "12:34:56", true}, {"timetz", "12:34:56+01:00", true}, {"timestamp", "2023-08-15T12:34:56", true}, {"timestamptz", "2023-08-15T12:34:56+01:00", true},
@@ -411,6 +412,23 @@ func runC05(c *h.Ctx) {
 				runMatrixCase(c, "$x[*] ? (@ like_regex "+quoteForPath(pat)+` flag "q")`, vars, vt)
 			}
 		}
+	}
+	// (a2b) many like_regex conditions in one evaluation (all of them reached)
+	for n := 1; n <= 12; n++ {
+		if !c.Mine(n) {
+			continue
+		}
+		var or, and, ex []string
+		for i := 0; i < n; i++ {
+			or = append(or, fmt.Sprintf(`@ like_regex "^z%d"`, i))
+			and = append(and, fmt.Sprintf(`@ like_regex "a" flag "%s"`, []string{"", "i", "s", "m", "q", "iq"}[i%6]))
+			ex = append(ex, fmt.Sprintf(`exists($x[*] ? (@ like_regex "b%d|a"))`, i))
+		}
+		vars := map[string]any{"x": []any{"abc", "xyz", "a"}}
+		vt := `{"x":["abc","xyz","a"]}`
+		runMatrixCase(c, "$x[*] ? ("+strings.Join(or, " || ")+")", vars, vt)
+		runMatrixCase(c, "$x[*] ? ("+strings.Join(and, " && ")+")", vars, vt)
+		runMatrixCase(c, strings.Join(ex, " && "), vars, vt)
 	}
 	// (a3) datetime texts at the edges: every datetime method, printing, and
 	// comparison of every pair
